@@ -293,19 +293,24 @@ Proof. split; [reflexivity | lia]. Qed.
 (* ------------------------------------------------------------------ histories of calls on one object *)
 (* self.idxs is re-chunked in place by get_sum / get_min / get_max and get_count memoises self.counts: for EVERY sequence of
    calls (with any data chunk layouts) on one object, every call returns what a fresh object holding the same indices returns *)
-Theorem C07_history_independent : forall size (chunks0 : list (list Z)) (calls : list bk_call),
-  bk_run (mk_obj size chunks0 None) calls = map (bk_fresh size (concat chunks0)) calls.
-Proof. exact history_independent. Qed.
+Theorem C07_history_independent : forall {T} (OP : ops T) size (chunks0 : list (list Z)) (calls : list bk_call),
+  bk_run OP (mk_obj size chunks0 None) calls = map (bk_fresh OP size (concat chunks0)) calls.
+Proof. intros T OP. exact (history_independent OP). Qed.
 Print Assumptions C07_history_independent.
 Theorem C07_get_sum_chunked_is_get_sum : forall size lens idxs data fill skipna ebv k,
   bk_get_sum_chunked size lens idxs data fill skipna ebv k = bk_get_sum size idxs data fill skipna ebv k.
 Proof. exact get_sum_chunked_flat. Qed.
 Print Assumptions C07_get_sum_chunked_is_get_sum.
+(* get_average on data with missing values FIRST, then get_count / get_fractions: the memo holds the hit counts (2, 0, 2),
+   not the valid-value counts (1, 0, 2) *)
 Example C07_history_ex :
-  bk_run (mk_obj 3 [[0; 2]; [2; -4; 0]] None)
-         [CallSum [1%nat; 4%nat] [Some 1; Some 2; None; Some 9; Some 5] None true (Some 0); CallCount;
+  bk_run F64 (mk_obj 3 [[0; 2]; [2; -4; 0]] None)
+         [CallAvg [1%nat; 4%nat] [Some 1; Some 2; Some 4; Some 9; None] None true; CallCount;
+          CallFrac [5%nat] [Some 1; Some 2; Some 2; Some 9; Some 5] 2 None;
+          CallSum [1%nat; 4%nat] [Some 1; Some 2; None; Some 9; Some 5] None true (Some 0);
           CallMax [5%nat] [Some 1; Some 2; Some 3; Some 9; Some 5]; CallCount]
-  = [ResD [Some 6; Some 0; Some 2]; ResZ [2; 0; 2]; ResD [Some 5; None; Some 3]; ResZ [2; 0; 2]].
+  = [ResF [Some 1%float; None; Some 3%float]; ResZ [2; 0; 2]; ResF [Some 0%float; None; Some 1%float];
+     ResD [Some 6; Some 0; Some 2]; ResD [Some 5; None; Some 3]; ResZ [2; 0; 2]].
 Proof. vm_compute. reflexivity. Qed.
 
 (* ------------------------------------------------------------------ composition with C18 *)
